@@ -29,7 +29,15 @@ func newLockState() *lockState {
 
 func (i *interpreter) recordAccess(addr interface{}, write bool, fr *frame, pos token.Pos) {
 	ls := i.locks
-	if ls == nil || !ls.tracked[addr] {
+	if ls == nil {
+		return
+	}
+	switch addr.(type) {
+	case *value, *smap:
+	default:
+		return // strings and other values are not shared cells
+	}
+	if !ls.tracked[addr] {
 		return
 	}
 	if i.sched != nil {
